@@ -806,7 +806,11 @@ func runC07Delta(c *Ctx) {
 		problem, undec := "", ""
 		models := 0
 		dv := []float64{-3, 0, 5}
-		for _, ref := range [][2]float64{{0, 0}, {3, -4}} {
+		for _, cfg := range []struct {
+			ref   [2]float64
+			scale float64
+		}{{[2]float64{0, 0}, 10}, {[2]float64{3, -4}, 10}, {[2]float64{0, 0}, 1e-5}, {[2]float64{3, -4}, 1e-5}} {
+			ref, scale := cfg.ref, cfg.scale
 			for mask := 0; mask < 81 && problem == "" && undec == ""; mask++ {
 				models++
 				var de [4]float64
@@ -816,12 +820,12 @@ func runC07Delta(c *Ctx) {
 					mm /= 3
 				}
 				m := &Model{Num: map[string]float64{}, Bool: map[string]bool{}, Missing: map[string]bool{}}
-				it := &k4interp{p: c.P, m: m, mem: map[string]k4val{}}
+				it := &k4interp{p: c.P, m: m, mem: map[string]k4val{}, inline: func(g *ssa.Function) bool { return FuncName(g) == "geom.(*twkbParser).unscale" }}
 				it.mem["$0.dimensions"] = k4val{kind: 2, f: 2}
 				it.mem["$0.pos"] = k4val{kind: 2, f: 0}
 				it.mem["$0.twkb"] = k4val{kind: 8, s: "IN", ln: 100, cp: 100}
 				for d := 0; d < 2; d++ {
-					it.mem[fmt.Sprintf("$0.scalings[%d]", d)] = k4val{kind: 2, f: 10}
+					it.mem[fmt.Sprintf("$0.scalings[%d]", d)] = k4val{kind: 2, f: scale}
 					it.mem[fmt.Sprintf("$0.refpoint[%d]", d)] = k4val{kind: 2, f: ref[d]}
 				}
 				n := -1
@@ -847,17 +851,24 @@ func runC07Delta(c *Ctx) {
 					undec = fmt.Sprintf("%v %v %s", err, res, missingList(m))
 					break
 				}
-				want := []float64{(ref[0] + de[0]) / 10, (ref[1] + de[1]) / 10, (ref[0] + de[0] + de[2]) / 10, (ref[1] + de[1] + de[3]) / 10}
+				// exact value of k / scale: for a negative precision (scale 10^-5) that is k * 10^5
+				un := func(k float64) float64 {
+					if scale < 1 {
+						return k * 1e5
+					}
+					return k / scale
+				}
+				want := []float64{un(ref[0] + de[0]), un(ref[1] + de[1]), un(ref[0] + de[0] + de[2]), un(ref[1] + de[1] + de[3])}
 				var got []float64
 				for i := 0; i < res[0].ln; i++ {
 					v, _ := it.lookup(fmt.Sprintf("%s[%d]", res[0].s, res[0].off+i), nil0)
 					got = append(got, v.f)
 				}
 				if fmt.Sprint(got) != fmt.Sprint(want) {
-					problem = fmt.Sprintf("for deltas %v, scale 10, reference %v the decoded ordinates are %v, expected %v", de, ref, got, want)
+					problem = fmt.Sprintf("for deltas %v, scale %v, reference %v the decoded ordinates are %v, expected exactly %v", de, scale, ref, got, want)
 				}
 			}
 		}
-		reportK4(c, f, "delta decoding", undec, problem, fmt.Sprintf("running sum of the deltas per dimension divided by the scale, in all %d models", models))
+		reportK4(c, f, "delta decoding", undec, problem, fmt.Sprintf("running sum of the deltas per dimension, exactly unscaled (also for a negative precision), in all %d models", models))
 	}
 }
